@@ -29,6 +29,37 @@ def from_pyhap(ex: BaseException) -> bool:
     return False
 
 
+#: objects reached by Characteristic.get_value / client_update_value, in call order: ("r"|"w", object)
+TRACE: List[tuple] = []
+#: recording is switched on only while a harness module inspects identities
+TRACE_ON = [False]
+
+
+def install_recorders():
+    """Class-level recording wrappers around `Characteristic.get_value` and
+    `Characteristic.client_update_value` (identity of the object a read / a write reaches, without
+    installing callbacks that would change how the characteristic behaves). Idempotent per class."""
+    from pyhap.characteristic import Characteristic
+
+    if getattr(Characteristic, "_verif_recorders", False):
+        return
+    real_get, real_update = Characteristic.get_value, Characteristic.client_update_value
+
+    def get_value(self):
+        if TRACE_ON[0]:
+            TRACE.append(("r", self))
+        return real_get(self)
+
+    def client_update_value(self, value, sender_client_addr=None):
+        if TRACE_ON[0]:
+            TRACE.append(("w", self))
+        return real_update(self, value, sender_client_addr)
+
+    Characteristic.get_value = get_value
+    Characteristic.client_update_value = client_update_value
+    Characteristic._verif_recorders = True
+
+
 class GetterBoom(Exception):
     pass
 
@@ -72,7 +103,11 @@ class Rig:
                 return self.rig_available
 
         self.RigAccessory = RigAccessory
-        self.loop = asyncio.new_event_loop()
+        install_recorders()
+        from vloop import VLoop
+
+        self.loop = VLoop()  # virtual time: the 0.5 s event coalescing window is crossed with advance()
+        self.conns: Dict[tuple, tuple] = {}  # peer -> (HAPServerProtocol, FakeTransport): real connections
         # one loader per driver, as an application has it -- and a fresh one per rig, so that nothing
         # one history does to loader-level state can leak into the next history
         self.loader = Loader()
@@ -104,11 +139,67 @@ class Rig:
             return real_publish(data, sender_client_addr, immediate)
 
         self.driver.publish = publish
-        self.driver.http_server.push_event = lambda data, client, immediate=False: (
-            self.pushed.append((dict(data), client)) or True
-        )
+        def push_event(data, client, immediate=False):
+            proto = self.driver.http_server.connections.get(client)
+            if proto is not None:
+                # a real connection: the payload goes into the protocol's own queue, by reference, as
+                # HAPServer.push_event does; what the peer receives is read from its transport
+                proto.queue_event(data, immediate)
+                return True
+            self.pushed.append((dict(data), client))
+            return True
+
+        self.driver.http_server.push_event = push_event
+
+    def connect(self, peer: tuple):
+        """A real HAPServerProtocol on a fake transport (plaintext: events are written as they are)."""
+        import pyhap.hap_protocol as hp
+        from vloop import FakeTransport
+
+        proto = hp.HAPServerProtocol(self.loop, self.driver.http_server.connections, self.driver)
+        tr = FakeTransport(peer)
+        proto.connection_made(tr)
+        self.conns[peer] = (proto, tr)
+        return proto, tr
+
+    def disconnect(self, peer: tuple):
+        proto, tr = self.conns.pop(peer)
+        try:
+            proto.close()
+        except Exception:  # noqa: BLE001
+            pass
+        self.driver.connection_lost(peer)
+
+    def delivered(self, peer: tuple) -> List[dict]:
+        """Decode and consume the EVENT messages written to a real connection so far: the list of
+        characteristic entries the peer received, in order."""
+        proto, tr = self.conns[peer]
+        data = tr.data()
+        del tr.writes[:]
+        out: List[dict] = []
+        while data:
+            head, sep, rest = data.partition(b"\r\n\r\n")
+            if not sep:
+                out.append({"undecodable": data[:40].hex()})
+                break
+            n = 0
+            for line in head.split(b"\r\n")[1:]:
+                k, _, v = line.partition(b":")
+                if k.strip().lower() == b"content-length":
+                    n = int(v.strip())
+            body, data = rest[:n], rest[n:]
+            if head.startswith(b"EVENT/"):
+                try:
+                    out += json.loads(body).get("characteristics", [])
+                except ValueError:
+                    out.append({"undecodable": body[:40].hex()})
+        return out
 
     def close(self):
+        try:
+            self.loop.settle()
+        except Exception:  # noqa: BLE001
+            pass
         try:
             self.loop.close()
         except Exception:  # noqa: BLE001
